@@ -220,6 +220,13 @@ def _shared(ctx, N):
     I2, s2 = ctx.interp(), State()
     ref = ctx.call_func(I2, s2, "ref.selection_ref.best_new_selection", scores, sel, Q, vconst(None), "absolute", vconst(None))
     ctx.compare("R-ARGMAX", "next pick = argmax of the distance table with every already selected candidate excluded", N, r, ref, ctx.site(P.method(base, "_get_best_new_selection")))
+    # FPS' score() hands out the live distance table: the exclusion mask must go to a private copy
+    I3, s3 = ctx.interp(), State()
+    table = arr("table", "S0")  # caller-owned storage (origin ('in', 'table'))
+    o3 = ctx.bare_object(I3, s3, base, {"score_threshold": None, "selected_idx_": sel, "n_selected_": Q, "first_score_": None, "score_threshold_type": "absolute"})
+    ctx.call_method(I3, s3, o3, "_get_best_new_selection", _V("func", T("scorer"), func=("builtin", (lambda i_, a_, k_, s_, n_: table), "scorer")), arr("X", "N", "M"), arr("y", "N", "P"))
+    hits = [e for e in I3.events if e["kind"] == "mutate" and ("in", "table") in e["target"].orig]
+    ctx.ob("R-RUNMIN", "the selection step does not write into the distance table it is handed", not hits, f"in-place {[e.get('how') for e in hits]} on the scorer's table: `{hits[0].get('src')}`" if hits else "the mask is applied to a copy", ctx.site(P.method(base, "_get_best_new_selection")))
     for pkg, axis, S in DIRS:
         for cname in ("FPS", "PCovFPS"):
             cls = P.cls(f"skmatter.{pkg}_selection.{cname}")
